@@ -357,6 +357,7 @@ def o7(ctx, rep):
     fn = "bitbox::recover"
     # the comparison: one side from WalBlobReader::sync_seqn(), the other from the sync_seqn parameter
     gates = []
+    seq_params = set()
     for b in range(body.n):
         for i, s in enumerate(body.stmts(b)):
             if s["k"] == "assign" and s["rv"]["k"] == "bin" and s["rv"]["op"] in ("Eq", "Ne"):
@@ -367,7 +368,12 @@ def o7(ctx, rep):
                     return any(r.kind == "call" and r.what.endswith("WalBlobReader::sync_seqn") for r in rs)
 
                 def is_param(rs):
-                    return any(r.kind == "param" and r.what == 1 and not r.fields for r in rs)
+                    # the sequence number handed in by the opener: a `u32` parameter (its position changes when the redo
+                    # becomes a method)
+                    hits = [r.what for r in rs if r.kind == "param" and not r.fields and body.local_ty(r.what) == "u32"]
+                    if hits:
+                        seq_params.add(hits[0])
+                    return bool(hits)
 
                 if (is_wal(la) and is_param(lb)) or (is_wal(lb) and is_param(la)):
                     import guardfx
@@ -423,7 +429,7 @@ def o7(ctx, rep):
     rep.check(bool(trunc), "O7", fn, "stale-discard", "the stale-WAL branch does not truncate the WAL", site=ln, detail="`!=` edge -> truncate_wal -> return")
     # provenance of the parameter: Meta.sync_seqn read in Store::open
     prov = False
-    for r in xtrace(ctx.facts, body, {"l": 1}, depth=4):
+    for r in [x for sp in (sorted(seq_params) or [1]) for x in xtrace(ctx.facts, body, {"l": sp}, depth=4)]:
         if r.fields and r.fields[-1] == "sync_seqn" and "meta::Meta" in "".join(r.owners[-1:]):
             prov = True
         if r.kind == "call" and r.what.endswith("Meta::read") and "sync_seqn" in r.fields:
@@ -1128,10 +1134,20 @@ def o12(ctx, rep):
     for (fn, body) in [(e, b) for e in ("nomt::bitbox::DB::prepare_sync", "nomt::bitbox::recover") for b in [ctx.facts.body(e)] + [ctx.facts.bodies[x] for x in sorted(owned_region(ctx.facts, e)) if ctx.facts.bodies[x].kind != "Closure"]]:
         muts = [(b, t) for b, t in body.calls() if (t.get("callee") or "") in ("nomt::bitbox::meta_map::MetaMap::set_tombstone", "nomt::bitbox::meta_map::MetaMap::set_full")]
         queues = []
+
+        def from_page_index(op, depth=0):
+            for r in trace(body, op):
+                if r.kind == "call" and str(r.what).endswith("MetaMap::page_index"):
+                    return True
+                if r.kind == "agg" and r.obj is not None and depth < 3 and any(from_page_index(o, depth + 1) for o in r.obj.get("ops", [])):
+                    return True  # `Some(page_index(..))` handed to `extend`
+            return False
+
         for b, t in body.calls():
             c = t.get("callee") or ""
-            if c.endswith("HashSet::insert") or c.endswith("HashSet::<T, S>::insert") or (c.endswith("::insert") and "hash" in c.lower()):
-                if len(t["args"]) > 1 and any(r.kind == "call" and r.what.endswith("MetaMap::page_index") for r in trace(body, t["args"][1])):
+            m_ = c.rsplit("::", 1)[-1]
+            if m_ in ("insert", "extend") and ("HashSet" in c or "hash" in c.lower() or "HashSet" in (t.get("gargs") or "") or "HashSet" in body.op_ty(t["args"][0]) if t["args"] else False):
+                if len(t["args"]) > 1 and from_page_index(t["args"][1]):
                     queues.append(b)
         total_muts[fn] = total_muts.get(fn, 0) + len(muts)
         loops = m.loops(body)
@@ -1277,3 +1293,94 @@ def o13(ctx, rep):
     rep.floor("O13 set_tombstone sites paired with the WAL", seen["clear"], 1)
     rep.floor("O13 data-page pushes paired with the WAL", seen["data"], 1)
     return n
+
+
+# ---- O14 (C03): the redo applies every WAL entry ---------------------------------------------------
+
+
+def o14(ctx, rep):
+    """in the WAL redo (recover and its private phases) the loop over WalBlobReader::read_entry dispatches on the entry kind,
+    and every arm reaches the next iteration, on its success paths, only through the effect that re-applies the entry:
+    a Clear entry through MetaMap::set_tombstone, an Update entry through a write of the hash-table file (any further kind:
+    through one of the two).  An arm that can `continue` without its effect silently skips a change the interrupted commit
+    had promised."""
+    from core import trace
+
+    facts = ctx.facts
+    entry = facts.body("nomt::bitbox::recover")
+    fn = "bitbox::recover"
+    region = owned_region(facts, entry.id)
+    # the function holding the loop over the entries: recover itself or one of its private phases
+    body = entry
+    for rb in [entry] + [facts.bodies[x] for x in sorted(region) if facts.bodies[x].kind != "Closure"]:
+        if any((t.get("callee") or "").endswith("WalBlobReader::read_entry") for _b, t in rb.calls()):
+            body = rb
+            break
+    if body.id != entry.id:
+        fn = short(body.id)
+    sites = {"tomb": set(), "full": set(), "write": set()}
+    for rb in [body] + [facts.bodies[x] for x in sorted(region) if x != body.id]:
+        local = []
+        for b, tt in rb.calls():
+            c = tt.get("callee") or ""
+            if c.endswith("MetaMap::set_tombstone"):
+                local.append((b, "tomb"))
+            elif c.endswith("MetaMap::set_full"):
+                local.append((b, "full"))
+        for e in ctx.model.ev_by_body.get(rb.id, []):
+            if e.kind == "write" and e.cls == "ht":
+                local.append((e.bb, "write"))
+        for (b, k) in local:
+            if rb.id == body.id:
+                sites[k].add(b)
+            else:
+                for eb in entry_blocks(facts, body, rb.id.split("::{closure")[0], region):
+                    sites[k].add(eb)
+    reads = [b for b, t in body.calls() if (t.get("callee") or "").endswith("WalBlobReader::read_entry")]
+    n = 1
+    if not rep.check(bool(reads), "O14", fn, "reads-entries", "recover no longer reads the WAL entries (WalBlobReader::read_entry)", site=body.span, detail="while let Some(entry) = wal_reader.read_entry()?"):
+        return n
+    loops = ctx.model.loops(body)
+    cands = [(h, blk) for (h, blk, lat) in loops if reads[0] in blk]
+    n += 1
+    if not rep.check(bool(cands), "O14", fn, "entry-loop", "the WAL entries are no longer read in a loop", site=body.span, detail="loop over read_entry"):
+        return n
+    (head, blk) = min(cands, key=lambda x: len(x[1]))
+    adt = facts.adts.get("nomt::bitbox::wal::read::WalEntry")
+    if adt is None:
+        raise CheckBroken("ANCHOR-MISSING: type nomt::bitbox::wal::read::WalEntry")
+    names = [v["name"] for v in adt.get("variants", [])]
+    disp = []
+    for sb in sorted(blk):
+        t = body.term(sb)
+        if t["k"] != "switch":
+            continue
+        for s_ in body.stmts(sb):
+            if s_["k"] == "assign" and s_["rv"]["k"] == "discr" and (body.place_ty(s_["rv"]["pl"]) or "") == "nomt::bitbox::wal::read::WalEntry":
+                if _bare_local(t["d"]) == s_["pl"]["l"]:
+                    disp.append(sb)
+    n += 1
+    if not rep.check(len(disp) >= 1, "O14", fn, "dispatch-on-entry-kind", "recover no longer dispatches on the kind of the WAL entry", site=body.span, detail="match entry { Clear.., Update.. }"):
+        return n
+    rem = set(body.ok_removed())
+    for sb in disp:
+        t = body.term(sb)
+        arms = [(str(v), tb) for (v, tb) in t["vals"]]
+        for (v, tb) in arms:
+            name = names[int(v)] if v.isdigit() and int(v) < len(names) else "#" + v
+            want = sites["tomb"] if name == "Clear" else sites["write"] if name == "Update" else (sites["tomb"] | sites["write"] | sites["full"])
+            label = "MetaMap::set_tombstone" if name == "Clear" else "a write of the hash-table file" if name == "Update" else "a redo effect"
+            n += 1
+            gates = set(want) | rem
+            reach = body.reachable([tb] if tb not in gates else [], gates)
+            ends = ({head} | {x for x in reach if x not in blk and x in set(body.ok_returns())}) & (reach | {head} if head in reach else reach)
+            ok = bool(want) and not (reach & ({head} | set(body.ok_returns())))
+            rep.check(ok, "O14", fn, "entry=%s=>redo" % name, "a WAL %s entry can be passed over: from its arm the next iteration (or a success return) is reachable without %s - the change the interrupted commit had logged is not re-applied" % (name, label), site=t.get("ln"), detail="every success path of the %s arm passes %s (bb%s)" % (name, label, sorted(want)))
+    rep.floor("O14 entry kinds dispatched", len(names), 2)
+    return n
+
+
+def _bare_local(op):
+    if op.get("k") in ("copy", "move") and not op["pl"].get("p"):
+        return op["pl"]["l"]
+    return None
